@@ -533,7 +533,14 @@ class TypeGen:
         nt = self.fresh("NT")
         members = [{"n": "f0", "t": ("int",)}, {"n": "f1", "t": r.choice([("str",), ("opt", ("int",), "Optional"), ("decimal",)])}]
         if r.random() < 0.4:
-            members[1]["dseed"] = r.getrandbits(32)
+            # a NamedTuple below the NamedTuple (the field's engine option travels into it on BOTH directions)
+            inner = self.fresh("NT")
+            self.fam.add({"k": "nt", "name": inner, "fields": [{"n": "g0", "t": ("int",)}, {"n": "g1", "t": r.choice([("str",), ("float",)])}],
+                          "functional": False}, self.value_maker)
+            I = ("nt", inner)
+            members.insert(1, {"n": "fn", "t": r.choice([I, I, ("opt", I, "Optional"), ("tuple", "Tuple", [I, ("str",)])])})
+        if r.random() < 0.4:
+            members[-1]["dseed"] = r.getrandbits(32)
         self.fam.add({"k": "nt", "name": nt, "fields": members, "functional": False}, self.value_maker)
         N = ("nt", nt)
         eng = r.choice([None, "'as_list'", "'as_dict'", "'as_list'", "'as_dict'"])
